@@ -1,0 +1,11 @@
+//go:build verif
+// +build verif
+
+package scheduler
+
+import "time"
+
+// VerifSetPause sets the polling pause of the scheduler loop (verification builds only).
+func (s *Scheduler) VerifSetPause(d time.Duration) {
+	s.pause = d
+}
